@@ -180,7 +180,12 @@ class GenModule(Elaboratable):
         if s.get("single_caller"):
             kw["single_caller"] = True
         if s.get("validate"):
-            kw["validate_arguments"] = _pred(*s["validate"])
+            vk, vc = s["validate"]
+            if vk in ("sig", "nsig"):  # predicate of a zero-argument method: a per-caller guard on an input signal
+                gsig = self.top.inp(vc)
+                kw["validate_arguments"] = (lambda: gsig) if vk == "sig" else (lambda: ~gsig)
+            else:
+                kw["validate_arguments"] = _pred(vk, vc)
         ready = self.top.inp(s["ready"]) if s.get("ready") is not None else C(1)
         ow = md["ow"]
         loc = self.top.inp(s["loc"]) if s.get("loc") is not None else C(0, max(ow, 1))
